@@ -96,6 +96,15 @@ CHECKS = {
                      "components, the helper carries the Eq bound and sits in a type-checked function item. Restricted scope: that rustc rejects a non-Eq argument is not re-checked.",
                 note="Trusted: rustc's MIR dump, executor semantics, z3. Macro side of the assertion only.",
                 tech="symbolic execution of rustc MIR + z3, native replay of models"),
+    "C19": dict(engine="E3 mir-smt", ref="DESIGN.md §6 C19",
+                text="Symbolic path execution with z3 of the dump kernel: DeriveEntry::from_args_list (an entry's flag is list.dump || own.dump of exactly its list / trait, all flags and "
+                     "argument presences symbolic), DeriveEntry::apply_dump (pass-through / message / builder error, message template = label + one `{}` of the generated stream), "
+                     "the struct and enum core loops (each result through its own entry's apply_dump, appended in order) and item_impl::build_by_item_impl (code only without dump; the "
+                     "dump path builds the stream by the same steps as its sibling). Restricted scope: the printing of the stream into the message is not encoded; it is compared "
+                     "natively on a stated list of inputs.",
+                note="Trusted: rustc's MIR dump, executor semantics, z3. The builders and item_impl's helpers are opaque (only where their results flow is examined). "
+                     "`Display for TokenStream` is outside the encoding: the native differential (R) on the listed (item, trait list, dump placement, entry point) tuples is sampling, and said so.",
+                tech="symbolic execution of rustc MIR + z3, native replay of models; native differential of expansions with / without dump for the printing step"),
     "C18": dict(engine="E1 kani-gen", ref="DESIGN.md §6 C18",
                 text="Kani/CBMC decides pointer identity of deref()/deref_mut() with the field, Target identity (type-level) and that writes land in the field, for all field values.",
                 note=E1_NOTE + " The arity rejection (0 or >=2 fields) is outside this check.", tech="Kani/CBMC bounded model checking of macro-generated Deref/DerefMut impls"),
@@ -103,7 +112,6 @@ CHECKS = {
 
 NOT_APPLICABLE = {
     "C16": "quantifies over arbitrary token streams through syn's parser; Kani cannot compile TokenStream code here (ICE) and the MIR executor treats parsing as opaque; determinism is a whole-crate data-flow fact (DESIGN.md §6)",
-    "C19": "the observable is the text of a compile error produced by TokenStream's Display; no encoding of token printing / re-lexing is within reach (DESIGN.md §6)",
     "C20": "the deciding engine is rustc's type checker and lint pass; there is no solver encoding of it (compile failures of generated programs are still reported as rustc verdicts by the E1 checks)",
 }
 
